@@ -73,10 +73,21 @@ func discharge(vcs []*VC, opt runOpts) {
 						t = opt.timeoutS
 					}
 				}
-				r := raceSolve(opt.scratch, j.o.Name, j.vc.query(j.o), t, opt.all && j.o.Expect != "fail")
+				q := j.vc.query(j.o)
+				var r solveResult
+				staged := false
+				if !opt.all && j.o.Expect != "fail" {
+					// stage 1: the back end that decides most obligations, alone and briefly;
+					// stage 2 (below) is the full race
+					r = raceSolveOn(opt.scratch, j.o.Name, q, 2, false, backends[:1])
+					staged = r.Answer == "unsat"
+				}
+				if !staged {
+					r = raceSolve(opt.scratch, j.o.Name, q, t, opt.all && j.o.Expect != "fail")
+				}
 				if r.Answer != "unsat" && r.Answer != "sat" && j.o.Expect != "fail" {
 					// one retry with a doubled budget (DESIGN 7, alarm hygiene)
-					r2 := raceSolve(opt.scratch, j.o.Name+".retry", j.vc.query(j.o), 2*t, false)
+					r2 := raceSolve(opt.scratch, j.o.Name+".retry", q, 2*t, false)
 					if r2.Answer == "unsat" || r2.Answer == "sat" {
 						r = r2
 					}
@@ -311,5 +322,5 @@ func hasClause(d *Decl, kind string) bool {
 	return false
 }
 
-func cmdCheck(args []string)    { fmt.Println("not yet"); os.Exit(2) }
+
 func cmdSelftest(args []string) { fmt.Println("not yet"); os.Exit(2) }
